@@ -121,6 +121,24 @@ fn gen_data(s: &mut Src, sig: &Sig) -> Vec<Cmd> {
             }
         }
     }
+    // dense keys: > 16 rows under one value of the first column (cached sub-trie path)
+    if s.chance(1, 2) {
+        let t = fi(sig, "T");
+        let keys = 1 + s.below(3) as i64;
+        for k in 0..keys {
+            let n = 17 + s.below(10);
+            for r in 0..n as i64 {
+                let (a, b) = match s.below(4) {
+                    0 => (k, r),
+                    1 => (r, k),
+                    2 => (s.range(0, 2), s.range(0, 2)),
+                    _ => (r % 3, r),
+                };
+                cmds.push(Cmd::Act(Action::Expr(Term::App(t, vec![Term::I(k), Term::I(a), Term::I(b)]))));
+            }
+            cmds.push(Cmd::Act(Action::Expr(Term::App(fi(sig, "U"), vec![Term::I(k)]))));
+        }
+    }
     // a few more eq-sort terms, unions among leaves (matching modulo equality), subsumed rows
     for _ in 0..s.below(4) {
         cmds.push(Cmd::Act(Action::Expr(s.pick(&st).clone())));
@@ -141,7 +159,7 @@ fn gen_data(s: &mut Src, sig: &Sig) -> Vec<Cmd> {
 
 fn gen_body(s: &mut Src, sig: &Sig) -> (Vec<Fact>, Vec<(String, Ty)>, String) {
     let es: Vec<usize> = sig.funcs.iter().enumerate().filter(|(_, f)| f.name.starts_with('E')).map(|(i, _)| i).collect();
-    let shape = *s.pick(&["chain", "star", "cycle", "clique", "random", "mixed"]);
+    let shape = *s.pick(&["chain", "star", "cycle", "clique", "random", "mixed", "dupvar"]);
     let mut vars: Vec<(String, Ty)> = vec![];
     let mut body: Vec<Fact> = vec![];
     let iv = |i: usize| Term::Var(format!("x{i}"));
@@ -177,6 +195,20 @@ fn gen_body(s: &mut Src, sig: &Sig) -> (Vec<Fact>, Vec<(String, Ty)>, String) {
                 }
             }
             n_int = k;
+        }
+        "dupvar" => {
+            // an atom with a repeated variable joined with a second atom on that variable: plans of sibling rules
+            // (see `variant_of`) scan the same table with equally many but different slow constraints
+            n_int = 2;
+            let t = fi(sig, "T");
+            let pats: [[usize; 3]; 6] = [[0, 0, 1], [0, 1, 0], [1, 0, 0], [0, 1, 1], [1, 0, 1], [1, 1, 0]];
+            let p = *s.pick(&pats);
+            body.push(Fact::T(Term::App(t, vec![iv(p[0]), iv(p[1]), iv(p[2])])));
+            if s.bool() {
+                body.push(Fact::T(Term::App(fi(sig, "U"), vec![iv(0)])));
+            } else {
+                body.push(edge(s, 0, 1));
+            }
         }
         "random" => {
             n_int = 2 + s.below(4);
@@ -317,6 +349,14 @@ fn variant_of(s: &mut Src, body: &[Fact]) -> Vec<Fact> {
     }
     let i = *s.pick(&cands);
     if let Fact::T(Term::App(f, args)) = &b[i] {
+        if args.len() == 3 && args.iter().all(|a| matches!(a, Term::Var(_))) && (args[0] == args[1] || args[0] == args[2] || args[1] == args[2]) {
+            // rotate the pattern: (x x y) -> (x y x) -> (y x x)
+            let k = 1 + s.below(2);
+            let mut a = args.clone();
+            a.rotate_right(k);
+            b[i] = Fact::T(Term::App(*f, a));
+            return b;
+        }
         let mut a = args.clone();
         let p = s.below(a.len());
         let q = (p + 1 + s.below(a.len() - 1)) % a.len();
